@@ -26,7 +26,8 @@ PROFILE = _gen.profile(max_sessions=8, I=[1.0, 2.0], T=[0.5, 1.0],
                        p_app_disconnect=0.15, p_disconnect_all=0.0,
                        allow_polling_app_disconnect=0.0,
                        p_handler_fault=0.1, handler_actions=['raise'],
-                       p_reject=0.25, p_no_monitor=0.0, p_ws_fault=0.15)
+                       p_reject=0.25, p_no_monitor=0.0, p_ws_fault=0.15,
+                       stalled_handshakes=True)
 
 
 def gen(rng, tier, i):
